@@ -13,6 +13,9 @@ package main
 
 import (
 	"fmt"
+	"os"
+	"os/exec"
+	"path/filepath"
 	"strings"
 
 	pkglint "github.com/rillig/pkglint/v23"
@@ -215,4 +218,89 @@ func c04ParaUnit(ctx *Ctx, res *Result, rng *Rng, n int) {
 		paras = append(paras, c04GenPara(rng))
 	}
 	c04CheckParas(ctx, res, paras)
+	c04ParaCrossCheckExtraction(ctx, res, paras)
+}
+
+// c04ParaCrossCheckExtraction re-evaluates up to 200 of the oracle's answers to
+// `para` requests with coqc's vm_compute on Model/ModesPara.v (the extraction
+// itself is otherwise trusted).
+func c04ParaCrossCheckExtraction(ctx *Ctx, res *Result, paras []c04Para) {
+	if len(paras) > 50 {
+		paras = paras[:50]
+	}
+	coqStr := func(s string) string {
+		parts := make([]string, len(s))
+		for i := 0; i < len(s); i++ {
+			parts[i] = fmt.Sprint(s[i])
+		}
+		return "[" + strings.Join(parts, ";") + "]"
+	}
+	var reqs []string
+	for _, p := range paras {
+		for _, m := range c04UnitModes {
+			reqs = append(reqs, p.Request(m.show, m.fix))
+		}
+	}
+	ans, err := runOracle(ctx, "c04", reqs)
+	if err != nil {
+		res.Broken = err.Error()
+		return
+	}
+	var sb strings.Builder
+	sb.WriteString("From PV Require Import Lib.Bytes Model.Modes Model.ModesPara.\nOpen Scope N_scope.\n")
+	k := 0
+	for pi, p := range paras {
+		var ls, fs []string
+		for _, l := range p.Lines {
+			ls = append(ls, coqStr(l))
+		}
+		for _, f := range p.Fixes {
+			fs = append(fs, fmt.Sprintf("(%d%%nat, (%s, %s))", f.Line, coqStr(f.From), coqStr(f.To)))
+		}
+		for mi, m := range c04UnitModes {
+			a := ans[pi*len(c04UnitModes)+mi]
+			parts := strings.SplitN(a, "|", 2)
+			if len(parts) != 2 {
+				res.Broken = "c04 oracle: bad answer to a para request: " + a
+				return
+			}
+			var texts []string
+			if parts[1] != "" {
+				for _, l := range strings.Split(parts[1], "/") {
+					var raws []string
+					for _, t := range c04HexList(l) {
+						raws = append(raws, coqStr(t))
+					}
+					texts = append(texts, "["+strings.Join(raws, ";")+"]")
+				}
+			}
+			fmt.Fprintf(&sb, "Example case_%d : para_decision {| m_show := %v; m_fix := %v |} [%s] [%s] = (%v, [%s]).\nProof. vm_compute. reflexivity. Qed.\n",
+				k, m.show, m.fix, strings.Join(ls, ";"), strings.Join(fs, ";"), parts[0] == "1", strings.Join(texts, ";"))
+			k++
+		}
+	}
+	file := filepath.Join(ctx.Work, "c04paracases.v")
+	if err := os.WriteFile(file, []byte(sb.String()), 0o644); err != nil {
+		res.Broken = err.Error()
+		return
+	}
+	// generous limit: other builders load the machine; a coqc killed by the limit is counted, not judged
+	cmd := exec.Command("timeout", "1200", "coqc", "-Q", filepath.Join(ctx.Verif, "coq"), "PV", file)
+	cmd.Dir = ctx.Work
+	out, err := cmd.CombinedOutput()
+	if ee, ok := err.(*exec.ExitError); ok && ee.ExitCode() == 124 {
+		res.Count("para.vm_compute_cross_check_timed_out", 1)
+		return
+	}
+	if err != nil {
+		msg := string(out)
+		if len(msg) > 600 {
+			msg = msg[:600]
+		}
+		res.AddViolation(Violation{Key: "C04/extraction-vs-vm_compute/para",
+			What:       "the extracted oracle and coqc's vm_compute disagree on para_decision (or coqc failed): " + msg,
+			FoundInput: false, Replay: map[string]any{"broken": "extraction cross-check", "detail": msg}})
+		return
+	}
+	res.Count("para.vm_compute_cross_checked", k)
 }
